@@ -223,4 +223,7 @@ def run(tw, tier, seed, only=None):
 
 
 def replay(tw, desc):
-    return {"note": "history-dependent (id reuse); re-run the quick check", "violations": desc.get("violations", [])}
+    """the failures of this property are history dependent (id reuse, batch composition): the whole bounded run is repeated on the
+    current tree and the failures of the recorded function are reported"""
+    res = run(tw, "quick", 0)
+    return {"violations": [v for f in res["failures"] if f.get("function") == desc.get("function") for v in f["violations"]]}
